@@ -140,7 +140,7 @@ pub fn property() -> Property {
         assumptions: &["reference apply() follows the property text; 'never wraps' is read as: the counter stays at 65535"],
         subchecks: vec![SubCheck {
             name: "generated_positions",
-            driver: Driver::Generated { gen: gen_pos_case, genome_len: 192, quick: 600_000, thorough: 12_000_000 },
+            driver: Driver::Generated { gen: gen_pos_case, genome_len: 192, quick: 1_800_000, thorough: 14_400_000 },
             check: check_case,
             configs: Configs::Both,
             required: &[
